@@ -220,8 +220,11 @@ class ThreadRec(object):
 class Execution(object):
     """One complete execution of n bodies under a choice prefix."""
 
-    def __init__(self, bodies, prefix, max_points=2_000_000):
+    def __init__(self, bodies, prefix, max_points=2_000_000, atomic=()):
         self.recs = [ThreadRec(i, b) for i, b in enumerate(bodies)]
+        # threads whose bodies run without scheduling points once they have the baton (a long "background" body: the
+        # other threads are still preempted at each of their own points in favour of it)
+        self.atomic = frozenset(atomic)
         # prefix: either a dense choice list or a sparse {point index: alternative} of the non-default choices
         if isinstance(prefix, dict):
             self.forced = dict(prefix)
@@ -248,6 +251,8 @@ class Execution(object):
         return c
 
     def point(self, me, code, line):
+        if me.idx in self.atomic:
+            return
         others = [r for r in self.recs if not r.done and r is not me]
         if not others:
             return
@@ -322,7 +327,7 @@ class Execution(object):
         return sum(1 for j in range(i) if self.points[j][1] and self.choices[j] != 0)
 
 
-def explore(make_bodies, bound, on_execution, max_executions=None, shard=None):
+def explore(make_bodies, bound, on_execution, max_executions=None, shard=None, atomic=()):
     """Iterative preemption bounding.  make_bodies() -> list of zero-argument callables (fresh objects each
     time).  on_execution(choices, results, execution) is called for every complete execution.  A schedule is
     kept as the sparse map of its non-default choices.  shard=(k, n): this worker expands only the subtrees
@@ -333,7 +338,7 @@ def explore(make_bodies, bound, on_execution, max_executions=None, shard=None):
     capped = False
     while stack:
         forced, has_pre = stack.pop()
-        ex = Execution(make_bodies(), forced)
+        ex = Execution(make_bodies(), forced, atomic=atomic)
         results = ex.run()
         mine = shard is None or has_pre or shard[0] == 0
         if mine:
@@ -360,9 +365,9 @@ def explore(make_bodies, bound, on_execution, max_executions=None, shard=None):
     return n, capped
 
 
-def run_schedule(make_bodies, choices, trace=False):
+def run_schedule(make_bodies, choices, trace=False, atomic=()):
     """Replay one recorded schedule (used for determinism checks and replay files)."""
-    ex = Execution(make_bodies(), choices)
+    ex = Execution(make_bodies(), choices, atomic=atomic)
     ex.trace = trace
     results = ex.run()
     return results, ex
